@@ -94,6 +94,44 @@ func (c *Ctx) raw(k declKind, name, text string, deps []string) *Decl {
 
 func (c *Ctx) has(name string) bool { _, ok := c.idx[name]; return ok }
 
+// Mark is a position in the declaration sequence.
+func (c *Ctx) Mark() int { return len(c.decls) }
+
+// DependsOnAfter: does the term mention, directly or through definitions, a constant declared at or after
+// the mark? Heap arrays of the given epoch that are first touched later (`name@epoch`) denote the array as
+// it was when that epoch began, and count as declared before.
+func (c *Ctx) DependsOnAfter(term string, mark int, epoch string) bool {
+	seen := map[string]bool{}
+	var visit func(syms []string) bool
+	visit = func(syms []string) bool {
+		for _, sym := range syms {
+			if seen[sym] {
+				continue
+			}
+			seen[sym] = true
+			d, ok := c.idx[sym]
+			if !ok || d.seq < mark {
+				continue
+			}
+			switch d.Kind {
+			case kDef:
+				if visit(d.Deps) {
+					return true
+				}
+			case kConst:
+				if strings.HasSuffix(sym, "@"+epoch) {
+					continue
+				}
+				if strings.HasPrefix(d.Text, "(declare-const") || strings.Contains(d.Text, " () ") {
+					return true
+				}
+			}
+		}
+		return false
+	}
+	return visit(symbolsIn(term))
+}
+
 // Fresh returns a fresh symbol with the given stem.
 func (c *Ctx) Fresh(stem string) string {
 	c.n++
